@@ -9,7 +9,11 @@ from props import c04_position as P4
 
 PROPERTY = 'C13'
 LEVEL = 'exploration'
-RULE = ('Configuration: 0-4 listeners in each of the four classes (incoming '
+RULE = ('Also: an incoming listener that calls disconnect() and returns '
+        '(remaining stages of that packet still run once); one '
+        'decorator object registering several handlers; listeners of a '
+        'second, unconnected Connection never fire. '
+'Configuration: 0-4 listeners in each of the four classes (incoming '
         'early / ordinary, outgoing early / ordinary), registration order '
         'interleaved across classes, each with a type filter drawn from the '
         'packet class hierarchy (base Packet, abstract keep-alive, the '
